@@ -59,7 +59,7 @@ def main():
             t0 = time.time()
             tests = [l.strip() for l in open('/tmp/seed-out/stable_tests.txt') if l.strip()] if os.path.exists('/tmp/seed-out/stable_tests.txt') else []
             xml = os.path.join(wt, 'junit.xml')
-            rc, out = sh(['/venv/bin/python', '-m', 'pytest', '-q', '-p', 'no:cacheprovider', '--timeout=900', '-n', '16',
+            rc, out = sh(['/venv/bin/python', '-m', 'pytest', '-q', '-p', 'no:cacheprovider', '--timeout=900', '-n', os.environ.get('VERIF_PYTEST_N', '16'),
                           '--junitxml=' + xml] + tests, cwd=wt, env=env)
             last = out.strip().splitlines()[-1] if out.strip() else ''
             print('stable tests with patch: rc=%d  %s (%.0fs)' % (rc, last, time.time() - t0))
